@@ -137,6 +137,45 @@ def build(d, form):
     return cls(*[tuple(p) for p in d["pts"]])
 
 
+def round_consistent(sampled, d, M, on_ellipse):
+    """the recorded round-shape finding in its own terms: the transformed segments still form ONE closed, connected outline
+    (every segment starts where its predecessor ended, the last returns to the first point), and - when the images of the
+    unit vectors are orthogonal, i.e. only the traversal direction is affected - every sampled point lies on the image of
+    the ellipse. Anything else is a different defect and is not attributed to the finding."""
+    if not sampled:
+        return False
+    tolc = 1e-7 * max([1.0] + [abs(v) for sg in sampled for p in sg[1:] for v in p])
+    first = sampled[0][1]
+    prev_end = None
+    for sg in sampled:
+        start, end = sg[1], sg[2]          # TS5 = [0, 1, .5, .25, .75]
+        if prev_end is not None and geo.pdist(start, prev_end) > tolc:
+            return False
+        prev_end = end
+    if geo.pdist(prev_end, first) > tolc:
+        return False
+    # the four quadrant arcs close the outline by themselves: the closepath that follows has no length
+    for sg in sampled:
+        if sg[0] == "Close" and geo.pdist(sg[1], sg[2]) > tolc:
+            return False
+    if on_ellipse:
+        det = M[0] * M[3] - M[2] * M[1]
+        if abs(det) < 1e-12:
+            return True
+        cx, cy, rx, ry = d.get("cx", 0.0) or 0.0, d.get("cy", 0.0) or 0.0, abs(d.get("rx") or 0.0), abs(d.get("ry") or 0.0)
+        if rx == 0 or ry == 0:
+            return True
+        for sg in sampled:
+            if sg[0] != "Arc":
+                continue
+            for x, y in sg[1:]:
+                X, Y = x - M[4], y - M[5]
+                u, v = (M[3] * X - M[2] * Y) / det, (-M[1] * X + M[0] * Y) / det
+                if abs(((u - cx) / rx) ** 2 + ((v - cy) / ry) ** 2 - 1.0) > 1e-6:
+                    return False
+    return True
+
+
 def samples(segs):
     return [[geo.kind(s)] + geo.sample(s, TS5) for s in segs]
 
@@ -247,6 +286,12 @@ class C06(Prop):
 
     # ---------------------------------------------------------------- oracle
     @staticmethod
+    def _round_params(d):
+        if d["k"] == "circle":
+            return {"cx": d.get("cx", 0.0), "cy": d.get("cy", 0.0), "rx": d.get("r", 0.0), "ry": d.get("r", 0.0)}
+        return {"cx": d.get("cx", 0.0), "cy": d.get("cy", 0.0), "rx": d.get("rx", 0.0), "ry": d.get("ry", 0.0)}
+
+    @staticmethod
     def _cmp(a, b, tol):
         if len(a) != len(b):
             return "segment count %d vs %d" % (len(a), len(b))
@@ -289,7 +334,8 @@ class C06(Prop):
             if bad:
                 f = Failure(what="%s vs SVG 2 equivalent path under the transform: %s" % (what, bad), case=case,
                             observed=obs[name], expected=spec_t)
-                if round_nonorth and name in ("seg_t", "path_d", "abs_shape"):
+                if round_nonorth and name in ("seg_t", "path_d", "abs_shape") and \
+                        round_consistent(obs[name], self._round_params(d), M, orth_images(M) and name != "path_d"):
                     f["finding"] = FINDING
                 elif name == "path_d" and curved and (self._cmp(obs[name], spec_t, 1e-3 * scale) is None or
                                                       self._cmp(obs[name], obs["path_d_pred6"], 2e-5 * scale) is None):
